@@ -122,6 +122,14 @@ P.update({
             'weak(output) and strong(output) => weak(input) with margin 1e-9*(1+|x|) (absorbs only sympy\'s 15-digit printing), plus exact equivalence (boundary points '
             'included) when all coefficients are dyadic; counterexample points are re-evaluated with Python eval.', 'DESIGN.md#c12', ''),
 })
+P.update({
+    'C06': (True, 'model_checking',
+            'A real solver (NM, Powell, DE, DE2; bounds/constraints/penalty) is run from a symbolic start to generation k, then saved and restored through the real '
+            'SaveSolver/LoadSolver, the SetSaveFrequency dump, dill.copy and copy.deepcopy (symbolic scalars travel through the pickle); original and restored solver '
+            'then take one more real step under the same recorded random draws and the same uninterpreted cost: z3 closes equality of populations, energies, best, '
+            'counters, both monitors and Powell\'s direction set, independence (advancing one leaves the other untouched) and own evaluation counting.',
+            'DESIGN.md#c06', 'byte-level restart-file equality and file-system faults are outside the claim.'),
+})
 
 NOT_YET = 'check not built yet in this round (planned: DESIGN.md section 4)'
 
